@@ -183,6 +183,40 @@ def random_exec(rng, nops, mode="tab"):
     return lines
 
 
+def iter_wrap_family(rng, per_config):
+    """Bounded-exhaustive family around the iterator's slot/limit arithmetic: a probe cluster whose home slot is one of
+    the last three slots of an 8- or 16-slot array (so it wraps), optionally followed by entries homed at slot 0 / 1,
+    then one full iteration with a chosen subset of entries deleted through the iterator (all subsets for small
+    clusters, sampled for larger ones)."""
+    out = []
+    for size in (8, 16):
+        for home in (size - 3, size - 2, size - 1):
+            for m in (3, 4, 5, 6):
+                for extra in (0, 1, 2):
+                    n = m + extra
+                    if n > 8 or n >= size - 1:
+                        continue
+                    codes = [home] * m + [size, size + 1][:extra]
+                    masks = list(range(1 << n))
+                    if len(masks) > per_config:
+                        first_two = [k for k in masks if bin(k).count("1") == 2][:per_config // 3]
+                        masks = first_two + rng.sample(masks, per_config - len(first_two))
+                    for mask in masks:
+                        lines = ["RESET tab %d %s" % (n, " ".join(str(c) for c in codes)), "INIT 1 %d 1 1" % size]
+                        order = list(range(1, n + 1))
+                        rng.shuffle(order)
+                        for v, c in enumerate(order):
+                            lines.append("PUT 1 %d 1 %d 1" % (c, v + 1))
+                        lines.append("ITBEGIN 1")
+                        for i in range(n + 2):
+                            if (mask >> i) & 1:
+                                lines.append("ITDEL %d" % (i & 1))
+                            lines.append("ITNEXT")
+                        lines += ["FIND 1 1 1", "CLEANUP 1", "CLEANUP 2"]
+                        out.append(lines)
+    return out
+
+
 # ------------------------------------------------------------------ the library's own hash / equality pairs
 def _hex(b):
     return b.hex() if b else "-"
@@ -227,8 +261,13 @@ def hasheq_exec(rng, n):
             if b is None:
                 rel, b = "copy", a
         elif rel == "diff":
-            how = rng.choice(["byte", "len", "len"]) if ln else "len"
-            if how == "byte":
+            how = rng.choice(["byte", "len", "len", "bit5", "bit5"]) if ln else "len"
+            nonalpha = [i for i, x in enumerate(a) if not (chr(x).isalpha() and x < 128)]
+            if how == "bit5" and nonalpha:
+                # a non-letter byte with bit 5 flipped ('[' / '{', '@' / '`', '0' / DLE): never equal, not even ignoring case
+                i = rng.choice(nonalpha)
+                b = a[:i] + bytes([a[i] ^ 0x20]) + a[i + 1:]
+            elif how == "byte" or how == "bit5":
                 i = rng.randrange(ln)
                 x = a[i]
                 y = rng.choice([c for c in alpha if c != x and (c | 0x20) != (x | 0x20)])
@@ -305,6 +344,9 @@ def run(ctx):
     nheq = 40 if not thorough else 600
     for _ in range(nheq):
         execs.append(hasheq_exec(rng, 60))
+    fam = iter_wrap_family(rng, 24 if not thorough else 256)
+    execs += fam
+    ctx.extra["iterator_wrap_family_scripts"] = len(fam)
     ctx.extra["real_hash_table_scripts"] = nreal * len(REAL_MODES)
     ctx.extra["hasheq_pairs"] = nheq * 59
     calls = {}
